@@ -61,7 +61,7 @@ func init() {
 		mp := &multiPhase{}
 		mp.add(e2PhaseFor("C09", e2Oracles{merges: true, replica: true}))
 		mp.add(racePlan(40, 800), func(w *W, idx int) {
-			withWatchdog(w, idx, fmt.Sprintf("E3:merge-linearizability:round%d", idx), 10*time.Minute, func() { mergeLinRound(w, idx) })
+			withWatchdog(w, idx, fmt.Sprintf("E3:merge-linearizability:round%d", idx), 5*time.Minute, func() { mergeLinRound(w, idx) })
 		})
 		mp.add(streamPhaseFor("C09", 4, 40))
 		mp.add(probePhaseFor("C09"))
